@@ -75,6 +75,8 @@ def main(tier, only=None):
                  replace_calls=("include_file:stub_include_file", "expand_macro:stub_expand_macro")),
             e1.H("h_include_dquote_two_includers", "search/include-dquote-two-includers", unwind=30, timeout=300, defines=("HK_inc",),
                  replace_calls=("include_file:stub_include_file", "expand_macro:stub_expand_macro")),
+            e1.H("h_include_next_after_nested", "search/include-next-per-file", unwind=30, timeout=300, defines=("HK_inc",), object_bits=10,
+                 replace_calls=("include_file:stub_include_file", "expand_macro:stub_expand_macro")),
             e1.H("h_include_angle", "search/include-angle", unwind=30, timeout=300, defines=("HK_inc",),
                  replace_calls=("include_file:stub_include_file", "expand_macro:stub_expand_macro")),
         ]
